@@ -200,6 +200,19 @@ pub fn scenarios(prop: &str, tier: &str) -> Vec<Arc<dyn Scenario>> {
                     v.push(std(&format!("{prop}-flushy-k3"), TreeCfg::small(keys_abc()), af, bs(3, 3, 0, 1, 0), seeds_upto(1), oracle));
                 }
             }
+            if prop == "C01" || prop == "C07" {
+                // data parked in the deep levels (L5 / L6) with L1..L4 empty, then the leveled strategy
+                // decides where the next L0 run goes
+                let mut ad = Alphabet::default();
+                ad.put_f = true;
+                ad.del_f = true;
+                ad.leveled = vec![0];
+                ad.movedown = vec![(0, 5), (0, 6), (5, 6)];
+                ad.wms = vec![Wm::Tight];
+                ad.reopen = !quick;
+                let bd = if quick { bs(3, 2, 0, 0, 0) } else { bs(4, 3, 0, 1, 0) };
+                v.push(std(&format!("{prop}-deep-levels"), TreeCfg::small(keys_ab()), ad, bd, vec![vec![]], oracle));
+            }
             if prop == "C01" {
                 // bulk: hundreds of tiny entries in one data block (far more than 254 restart points),
                 // hash index on, read every key
@@ -679,6 +692,46 @@ pub fn scenarios(prop: &str, tier: &str) -> Vec<Arc<dyn Scenario>> {
                 cl.lz4 = true;
                 cl.block_size = 4096;
                 push(format!("{prop}-relocating-lz4"), cl, &ar, bd, vec![vec![]]);
+            }
+            {
+                // several partly stale blob files rewritten by one compaction whose output is larger
+                // than the blob file target: the relocation writer rotates to a new file half-way.
+                // Six keys, three blobs per file (a frame is 63 bytes, target 150).
+                let keys6: Vec<Vec<u8>> = b"abcdef".iter().map(|b| vec![*b]).collect();
+                let mut c = TreeCfg::small(keys6);
+                c.blob = Some(BlobCfg { threshold: 16, file_target: 150, staleness: 0.0, age_cutoff: 1.0 });
+                c.cache_bytes = 0;
+                let fl = Op::Flush { w: Wm::Tight };
+                let all = Op::Seq { ops: (0..6u8).map(|k| Op::Put { k, big: true }).collect() };
+                let some = Op::Seq { ops: vec![Op::Put { k: 0, big: true }, Op::Put { k: 3, big: true }] };
+                let mut am = Alphabet::default();
+                am.major = vec![u64::MAX];
+                am.leveled = vec![0];
+                am.put_f_big = true;
+                am.del_f = true;
+                am.wms = vec![Wm::Tight];
+                am.reopen = true;
+                am.snap = prop == "C08";
+                am.no_unsnap = true;
+                let seeds = vec![vec![all.clone(), fl.clone(), some.clone(), fl.clone()], vec![all.clone(), fl.clone(), Op::Snap, some.clone(), fl.clone()]];
+                let bd = if quick { bs(1, 2, 0, 1, 0) } else { bs(2, 3, 1, 1, 0) };
+                push(format!("{prop}-relocating-rotation"), c, &am, bd, seeds);
+            }
+            {
+                // three blobs in one file, rewrite threshold 0.5: a compaction first only marks the
+                // file stale (1/3), a later one drops a second pointer into it and rewrites it
+                let mut c = TreeCfg::small(crate::driver::keys_abc());
+                c.blob = Some(BlobCfg { threshold: 16, file_target: 64 << 20, staleness: 0.5, age_cutoff: 1.0 });
+                c.cache_bytes = 0;
+                let seed = vec![Op::Seq { ops: (0..3u8).map(|k| Op::Put { k, big: true }).collect() }, Op::Flush { w: Wm::Tight }];
+                let mut am = Alphabet::default();
+                am.major = vec![u64::MAX];
+                am.put_f_big = true;
+                am.del_f = true;
+                am.wms = vec![Wm::Tight];
+                am.reopen = true;
+                let bd = if quick { bs(2, 2, 0, 1, 0) } else { bs(3, 3, 0, 1, 0) };
+                push(format!("{prop}-stale-then-rewritten"), c, &am, bd, vec![seed]);
             }
             if quick {
                 push(format!("{prop}-t16-default"), mk(16, 64 << 20, 0.25, 0.25), &a, bs(2, 2, 1, 1, 1), vec![vec![]]);
